@@ -1,6 +1,8 @@
 //! vh_els: drives the real language server (els::Server through molc's FakeClient) in-process.
 //!   docsync  (C28): open + incremental change notifications; VFS.read compared with the client's copy
+//!   rename   (C30): textDocument/rename at given positions of a freshly analysed document
 mod docsync;
+mod rename;
 mod util;
 
 fn main() {
@@ -10,6 +12,7 @@ fn main() {
     util::install_quiet_panic_hook();
     let code = match sub {
         "docsync" => docsync::run(&rest),
+        "rename" => rename::run(&rest),
         _ => {
             eprintln!("unknown sub-command {sub:?}");
             2
